@@ -208,7 +208,7 @@ example :
 theorem params_referenced (ctrlRoute : String) (m : Method) (hnd : (m.params.map (·.name)).eraseDups.length = m.params.length)
     (h : linkValidate ctrlRoute m = []) :
     ∀ p ∈ m.params, isContextType p.type = false →
-      (∃ a ∈ m.annots, (a.name = "Path" ∨ isBindingAnnot a.name = true) ∧ a.value = p.name) := by
+      (∃ a ∈ m.annots, (a.name = "Path" ∨ (isBindingAnnot a.name = true ∧ (a.value.toList.all (· = ' ')) = false)) ∧ a.value = p.name) := by
   intro p hp hctx
   unfold linkValidate at h
   simp only [List.append_eq_nil_iff] at h
@@ -247,8 +247,8 @@ theorem params_referenced (ctrlRoute : String) (m : Method) (hnd : (m.params.map
     · simp at h
     · exact ⟨a, (List.mem_filter.1 ha).1, Or.inl (by simpa using (List.mem_filter.1 ha).2), hav⟩
   · simp only [List.mem_map, List.mem_filter, Bool.and_eq_true] at h1
-    obtain ⟨a, ⟨⟨ha, hb, _⟩, _⟩, hav⟩ := h1
-    exact ⟨a, ha, Or.inr hb, hav⟩
+    obtain ⟨a, ⟨⟨ha, hb, hnb⟩, _⟩, hav⟩ := h1
+    exact ⟨a, ha, Or.inr ⟨hb, by simpa using hnb⟩, hav⟩
 
 /-- **at most one body, never body together with form fields**: the parameter pass reports nothing -/
 theorem body_form_sound (env : TypeEnv) (m : Method) (ps : List MParam) (seen : List PassedIn)
